@@ -235,7 +235,9 @@ func (dw *DiskWriter) requestAsyncFileData(p, dest string, fi os.FileInfo, st *t
 		}); err != nil {
 			return err
 		}
-		return chtimes(dest, st.ModTime) // TODO: parent dirs
+		// writing the content changed the mtime and makes the kernel drop
+		// security.capability (and set-id bits for unprivileged writers)
+		return rewriteMetadata(dest, st) // TODO: parent dirs
 	})
 }
 
